@@ -31,15 +31,16 @@ def run(prop, tier, seed):
         else:
             e1 = Envelope(temporal_profile=TemporalProfile.Gaussian.with_params(mu=mu1, sigma=s1))
             e2 = Envelope(temporal_profile=TemporalProfile.Gaussian.with_params(mu=mu2, sigma=s2))
-        desc = {"sigma1": s1, "sigma2": s2, "mu1": mu1, "mu2": mu2, "delay": d, "shared_profile": shared, "self": selfov}
-        buckets.add((round(math.log10(s1)), s1 == s2, d == 0, mu1 != 0 or mu2 != 0, shared, selfov))
+        desc = {"sigma1": float(s1), "sigma2": float(s2), "mu1": float(mu1), "mu2": float(mu2), "delay": float(d), "shared_profile": shared, "self": selfov,
+                "types": [type(x).__name__ for x in (s1, s2, mu1, mu2, d)]}
+        buckets.add((round(math.log10(float(s1))), s1 == s2, d == 0, mu1 != 0 or mu2 != 0, shared, selfov, isinstance(s1, (int, np.integer))))
         try:
             v = float(e1.overlap_integral(e2, d))
             w = float(e2.overlap_integral(e1, -d))
         except Exception as ex:
             viol.append((f"overlap_integral raised {type(ex).__name__}: {ex}", desc))
             return
-        ref = b2f(L.call(op="overlap", sigma1=f2b(s1), sigma2=f2b(s2), mu1=f2b(mu1), mu2=f2b(mu2), delay=f2b(d))["v"])
+        ref = b2f(L.call(op="overlap", sigma1=f2b(float(s1)), sigma2=f2b(float(s2)), mu1=f2b(float(mu1)), mu2=f2b(float(mu2)), delay=f2b(float(d)))["v"])
         if len(samples) < 3:
             samples.append({**desc, "impl": v, "model": ref})
         if not abs(v - ref) <= 1e-7:
@@ -72,6 +73,11 @@ def run(prop, tier, seed):
         mu2 = rng.uniform(-40, 40) * w
         dist = rng.choice([0.0, rng.uniform(-3, 3) * w, rng.uniform(-15, 15) * w])
         d = (mu1 - mu2) + dist if rng.random() < 0.8 else rng.uniform(-60, 60) * w
+        case(s1, s2, mu1, mu2, d)
+    # integer-typed parameters (Python int, numpy integer): widths of whole seconds are inside the
+    # stated range and must give the same value as the equal float
+    for (s1, s2, mu1, mu2, d) in [(1, 1, 0, 0, 0), (2, 2, 0, 0, 0), (2, 2, 0, 0, 1), (2, 3.0, 0, 1, 0.25), (3, 2, 1, 0, 2), (np.int64(2), 2.0, 0, 0, 1),
+                                  (1, 2, 0, 0, 0.5), (2, 2, 0, 3, -3), (np.int32(3), np.int32(3), 0, 0, 0), (1.0, 1, 0.5, 0, 1)]:
         case(s1, s2, mu1, mu2, d)
     case(42.45e-15, 42.45e-15, 0.0, 0.0, 0.0)
     L.close()
